@@ -151,6 +151,10 @@ func (Prop) Generate(r *fw.Rand, tier string) []fw.Case {
 		cases = append(cases, fw.Case{Ops: []string{fmt.Sprintf("w %s %s %s", levels[r.Intn(4)], strings.Join(outs, ","), os)},
 			Tags: []string{fmt.Sprintf("n=%d", n), "sampled"}})
 	}
+	cases = append(cases, fw.Case{Ops: []string{"e2elate one"}, Tags: []string{"e2e-late"}})
+	if tier == "thorough" {
+		cases = append(cases, fw.Case{Ops: []string{"e2elate all"}, Tags: []string{"e2e-late"}}, fw.Case{Ops: []string{"e2elate any"}, Tags: []string{"e2e-late"}})
+	}
 	return append(cases, e2eCases(tier)...)
 }
 
@@ -512,9 +516,71 @@ func runE2E(f []string) (res string) {
 	return fmt.Sprintf("%s stored=%s hh=%s", classify(werr), strings.Join(st, ","), strings.Join(hc, ","))
 }
 
+// runLate: `e2elate <level>` — two real nodes with a 1.2 s RPC timeout, one shard owned by the
+// remote node only. Write A reaches an owner that answers after 2 s: the coordinator gives up
+// on it. Then the owner is healthy again but its shard is disabled, so write B is refused by
+// it: B must be reported as failed (and offered to hinted handoff) — the late answer to A
+// must not be taken for the answer to B.
+func runLate(f []string) (res string) {
+	defer func() {
+		if r := recover(); r != nil {
+			res = "panic:" + strings.ReplaceAll(fmt.Sprint(r), " ", "_")
+		}
+	}()
+	e2eMu.Lock()
+	defer e2eMu.Unlock()
+	lv, err := models.ParseConsistencyLevel(f[1])
+	if err != nil {
+		return "bad-op"
+	}
+	dir, _ := os.MkdirTemp(shardh.WorkDir("c03"), "late-")
+	defer os.RemoveAll(dir)
+	c, err := clusterh.NewWithTimeout(dir, 2, "inmem", clusterh.SlowTimeout)
+	if err != nil {
+		return "err:" + strings.ReplaceAll(err.Error(), " ", "_")
+	}
+	defer c.Close()
+	const base = int64(1600000000000000000)
+	ids := c.AddShardGroup(base, base+1000000, [][]int{{1}})
+	hh := &recHH{calls: map[uint64]int{}}
+	c.Nodes[0].PointsWriter.HintedHandoff = hh
+	// a first write opens the shard on the owner
+	p0 := models.MustNewPoint("m", models.NewTags(map[string]string{"h": "a"}), models.Fields{"v": int64(1)}, time.Unix(0, base+1))
+	if err := c.Nodes[0].PointsWriter.WritePointsPrivileged(clusterh.DB, clusterh.RP, lv, []models.Point{p0}); err != nil {
+		return "err:first_write:" + strings.ReplaceAll(err.Error(), " ", "_")
+	}
+	c.SetFault(1, clusterh.Fault{Kind: "slow"})
+	pa := models.MustNewPoint("m", models.NewTags(map[string]string{"h": "a"}), models.Fields{"v": int64(2)}, time.Unix(0, base+2))
+	c.Nodes[0].PointsWriter.WritePointsPrivileged(clusterh.DB, clusterh.RP, lv, []models.Point{pa}) // times out
+	time.Sleep(clusterh.SlowDelay + 300*time.Millisecond)                                            // A's answer is on its way back by now
+	c.SetFault(1, clusterh.Fault{})
+	if err := c.Nodes[1].Store.SetShardEnabled(ids[0], false); err != nil {
+		return "err:disable:" + strings.ReplaceAll(err.Error(), " ", "_")
+	}
+	hh.mu.Lock()
+	before := hh.calls[c.IDs[1]]
+	hh.mu.Unlock()
+	pb := models.MustNewPoint("m", models.NewTags(map[string]string{"h": "a"}), models.Fields{"v": int64(3)}, time.Unix(0, base+3))
+	werr := c.Nodes[0].PointsWriter.WritePointsPrivileged(clusterh.DB, clusterh.RP, lv, []models.Point{pb})
+	hh.mu.Lock()
+	offered := hh.calls[c.IDs[1]] - before
+	hh.mu.Unlock()
+	if werr == nil && lv != models.ConsistencyLevelAny {
+		return "LATE-ANSWER-TAKEN the write the owner refused was reported as successful"
+	}
+	if offered == 0 {
+		return "LATE-ANSWER-TAKEN the write the owner refused was not offered to hinted handoff"
+	}
+	return "late-answer-ignored"
+}
+
 func (Prop) RunImpl(c fw.Case) []string {
 	out := make([]string, len(c.Ops))
 	for i, op := range c.Ops {
+		if strings.HasPrefix(op, "e2elate ") {
+			out[i] = runLate(strings.Fields(op))
+			continue
+		}
 		if strings.HasPrefix(op, "e2e ") {
 			out[i] = runE2E(strings.Fields(op))
 			continue
@@ -528,6 +594,12 @@ func (Prop) RunImpl(c fw.Case) []string {
 // result/effects — no reference to the Lean model.
 func (Prop) Oracle(c fw.Case, implOut []string) fw.Verdict {
 	for k, op := range c.Ops {
+		if strings.HasPrefix(op, "e2elate ") && k < len(implOut) {
+			if o := implOut[k]; o != "late-answer-ignored" {
+				return fw.Verdict{OK: false, Why: op + " => " + o, Signature: "a late answer to an earlier write is taken for the answer to the next"}
+			}
+			continue
+		}
 		if strings.HasPrefix(op, "e2e ") && k < len(implOut) {
 			// every owner is healthy: the write succeeds at every level, every owner holds the
 			// point, nothing is handed to hinted handoff
